@@ -729,6 +729,24 @@ func (sc *SpecCtx) call(x *SX) Val {
 			return Val{Ty: specBool, T: lt(sArr(v.T), sc.allocBase())}
 		}
 		return Val{Ty: specBool, T: lt(v.T, sc.allocBase())}
+	case "bytestr", "itoa", "hexOf":
+		// bytestr(b): the text a byte slice built by fmt.Appendf spells; itoa(n): decimal
+		// rendering; hexOf(n): the (uninterpreted) %x rendering. Need `strings smt`.
+		need(1)
+		if !vc.strSMT {
+			sc.fail(x, name+" needs 'strings smt'")
+		}
+		v := sc.eval(args[0])
+		strTy := types.Typ[types.String]
+		switch name {
+		case "bytestr":
+			vc.declUF("bytestr", "("+SSlice+") String")
+			return Val{Ty: strTy, T: app("String", "bytestr", v.T)}
+		case "hexOf":
+			vc.declUF("hexOf", "(Int) String")
+			return Val{Ty: strTy, T: app("String", "hexOf", vc.toInt(v))}
+		}
+		return Val{Ty: strTy, T: itoaTerm(vc.toInt(v))}
 	case "deref":
 		// deref(p): the value stored in the cell p points to (p a pointer to a non-struct)
 		need(1)
